@@ -7,6 +7,10 @@
 //! well-formed line was dropped; `EntryType::from(name)` differs from the
 //! classification rule.
 //!
+//! Workloads: (a) interleaved line soups, (a') names sharing trailing
+//! components, (b) classification table + edits, (b') names assembled from the
+//! rule's clauses, (c) aliases.
+//!
 //! Oracle: by construction (`gen::distinfo::c11_doc` updates the model with
 //! the well-formed lines only).  Known finding K2 (`path-alias-merge`) is
 //! raised only in the alias workload below.
@@ -32,16 +36,40 @@ fn clip(b: &[u8]) -> String {
     }
 }
 
-fn interleaved_doc(ev: &mut Ev, d: &gd::C11Doc) -> CaseResult {
-    ev.count("docs/interleaved-workload");
+fn interleaved_doc(ev: &mut Ev, d: &gd::C11Doc, workload: &str) -> CaseResult {
+    ev.count(&format!("docs/{workload}-workload"));
     for c in &d.classes {
         ev.count(&format!("line/{}", c.name()));
     }
     ev.count(if d.interleaved { "interleave/files-interleaved" } else { "interleave/files-grouped" });
-    ev.count(&format!("files-per-doc/{}", d.nfiles));
+    match d.nfiles {
+        0..=6 => ev.count(&format!("files-per-doc/{}", d.nfiles)),
+        7..=20 => ev.count("files-per-doc/7-20"),
+        21..=80 => ev.count("files-per-doc/21-80"),
+        _ => ev.count("files-per-doc/81-300"),
+    }
+    ev.max("max/files-per-doc", d.nfiles as u64);
+    for list in [&d.model.dist, &d.model.patch] {
+        let names: Vec<&[u8]> = list.iter().map(|f| &f.name[..]).collect();
+        for c in gd::relation_classes(&names) {
+            ev.count(c);
+            if c.starts_with("shared-tail/") {
+                ev.count(&format!("{c}/{}", list[0].kind.name()));
+                if d.interleaved {
+                    ev.count("shared-tail/lines-interleaved");
+                }
+            }
+        }
+    }
     for f in d.model.files() {
         for c in gd::danger_classes(&f.name) {
             ev.count(&format!("name-byte/{c}"));
+        }
+        for c in gd::clause_classes(&f.name) {
+            ev.count(&format!("clause/{c}"));
+        }
+        if f.name.len() >= 30 {
+            ev.count("name/long-30+bytes");
         }
         if f.kind == Kind::Patch && f.size.is_some() {
             ev.count("model/patch-with-size");
@@ -146,20 +174,65 @@ pub fn run(cx: &mut Cx) {
         cx.ev.require(k);
     }
 
-    // (a) interleaved well-formed and must-ignore lines
-    let n = cx.per_shard(200, 25_000, 400_000, 4_000_000);
-    let mut r = cx.stream("interleaved");
-    for _ in 0..n {
-        let d = gd::c11_doc(&mut r);
-        cx.check(|| format!("distinfo text {:?}", clip(&d.text)), |ev| interleaved_doc(ev, &d));
+    for k in [
+        "files-per-doc/21-80",
+        "shared-tail/shorter-first/distfile",
+        "shared-tail/longer-first/distfile",
+        "shared-tail/shorter-first/patch",
+        "shared-tail/longer-first/patch",
+        "shared-tail/lines-interleaved",
+        "docs/shared-tail-workload",
+        "related/one-name-prefix-of-other",
+        "related/letter-case-twins",
+        "related/lossy-utf8-twins",
+        "name/long-30+bytes",
+        "clause-name/patch",
+        "clause-name/distfile",
+    ] {
+        cx.ev.require(k);
+    }
+    for c in gd::CLAUSE_CLASSES {
+        cx.ev.require(&format!("clause/{c}"));
     }
 
-    // (b) classification table: every row in every shard, then variants
+    // (a) interleaved well-formed and must-ignore lines.  One document in
+    // `big_every` is large (21-300 files; one of 22 files per shard under Miri).
+    let big_cap = cx.pick_tier(22usize, 300, 300, 300);
+    let big_every = cx.pick_tier(20u64, 60, 60, 60);
+    let n = cx.per_shard(160, 25_000, 400_000, 4_000_000);
+    let mut r = cx.stream("interleaved");
+    for i in 0..n {
+        let big = if i % big_every == big_every - 1 { Some(big_cap) } else { None };
+        let d = gd::c11_doc(&mut r, big);
+        cx.check(
+            || format!("distinfo text {:?}", clip(&d.text)),
+            |ev| interleaved_doc(ev, &d, "interleaved"),
+        );
+    }
+
+    // (a') shared-tail names: 'foo.tgz' / 'sub/foo.tgz' / 'a/sub/foo.tgz',
+    // every order of first appearance, lines interleaved
+    let n = cx.per_shard(24, 2_500, 40_000, 400_000);
+    let mut r = cx.stream("shared-tail");
+    for _ in 0..n {
+        let d = gd::shared_tail_doc(&mut r);
+        cx.check(
+            || format!("distinfo text with names sharing trailing components {:?}", clip(&d.text)),
+            |ev| interleaved_doc(ev, &d, "shared-tail"),
+        );
+    }
+
+    // (b) classification table: every row in every shard (under Miri the
+    // rows are dealt out over the shards), then variants
     let mut r = cx.stream("classification");
     let mut serial = 0u32;
-    for (name, kind, row) in gd::CLASS_TABLE {
+    let deal = cx.tier == crate::fw::Tier::Mini;
+    for (i, (name, kind, row)) in gd::CLASS_TABLE.into_iter().enumerate() {
         debug_assert_eq!(classify(name), Some(kind));
         let h = gd::unique_hash(&mut r, ALGS[3], &mut serial);
+        if deal && !cx.mine(i as u64) {
+            continue;
+        }
         cx.check(
             || format!("classification table row {:?}", show(name)),
             |ev| {
@@ -178,6 +251,29 @@ pub fn run(cx: &mut Cx) {
             || format!("classification of {:?} (variant of table row {:?})", show(&name), show(gd::CLASS_TABLE[row].0)),
             |ev| {
                 ev.count(&format!("table-variant/{}", kind.name()));
+                classification(ev, &name, kind, &h)
+            },
+        );
+    }
+
+    // (b') names assembled from the clauses of the rule (heads x bodies x
+    // stacked tails, and free mixtures of their fragments); the oracle refuses
+    // the ones on which two readings differ
+    let n = cx.per_shard(40, 8_000, 120_000, 1_200_000);
+    for _ in 0..n {
+        let name = gd::clause_name(&mut r);
+        let h = gd::unique_hash(&mut r, ALGS[3], &mut serial);
+        let kind = match classify(&name) {
+            Some(k) if crate::oracle::distinfo::path_plain(&name) => k,
+            _ => continue,
+        };
+        cx.check(
+            || format!("classification of {:?} (assembled from the clauses of the rule)", show(&name)),
+            |ev| {
+                ev.count(&format!("clause-name/{}", kind.name()));
+                for c in gd::clause_classes(&name) {
+                    ev.count(&format!("clause/{c}"));
+                }
                 classification(ev, &name, kind, &h)
             },
         );
